@@ -9,7 +9,7 @@ Two halves:
     come back, e.g. a C-level loop that never polls signals, or memory growth up to the RLIMIT_AS cap).
 A case is {"target": T, "text": S}; T in
   parse_tag      parse_tag(S) + serialize() of every attribute + is_dynamic_expression on every part's serialisation
-  template       django.template.Template(S)           (Django Lexer/Parser + the component tags' own parsing)
+  template       django.template.Template(S, engine=E) for E = Engine(debug=True) and Engine(debug=False)  (Django Lexer/Parser + the tags' own parsing)
   parse_template django_components.util.template_parser.parse_template(S)
   detailed       _detailed_tag_parser(S, 1, 0)
   dynamic        is_dynamic_expression(S)
@@ -165,7 +165,25 @@ def _targets():
             else:
                 is_dynamic_expression(v.serialize())
 
-    return {"parse_tag": t_parse_tag, "template": Template, "parse_template": parse_template,
+    from django.template import Engine
+    engs = [Engine(debug=d, builtins=["django_components.templatetags.component_tags"]) for d in (True, False)]
+
+    def t_template(s):
+        # both settings of engine.debug (the debug branch of compile_nodelist handles every error differently); the first
+        # exception that is not a TemplateSyntaxError wins
+        err = None
+        for eng in engs:
+            try:
+                Template(s, engine=eng)
+            except _Hang:
+                raise
+            except BaseException as e:  # noqa
+                if err is None or type(err).__name__ == "TemplateSyntaxError":
+                    err = e
+        if err is not None:
+            raise err
+
+    return {"parse_tag": t_parse_tag, "template": t_template, "parse_template": parse_template,
             "detailed": lambda s: _detailed_tag_parser(s, 1, 0), "dynamic": is_dynamic_expression}
 
 
